@@ -354,11 +354,8 @@ Section Fold.
   Qed.
 
   (* the fold is not eligible for the min-count truncation (`take(min)`), or has no minimum *)
-  Definition no_min_limit (vs : list ir_vertex) (h : fold_hdr) (sub : ir_component) : Prop :=
-    forall m, get_min_fold_count_limit args h = Ok (Some m) ->
-      ((match c_outputs sub with [] => true | _ => false end)
-       && (match fo_fsout h with [] => true | _ => false end)
-       && negb (has_tag_on_fold_count vs h)) = false.
+  Definition no_min_limit (vs : list ir_vertex) (ss : list step) (h : fold_hdr) (sub : ir_component) : Prop :=
+    forall m, get_min_fold_count_limit args h = Ok (Some m) -> min_eligible vs ss h sub = false.
 
   Lemma collect_no_min {A} (l : list A) maxl :
     collect_fold_elements l maxl None = if match maxl with Some m => Z.ltb m (Z.of_nat (List.length l)) | None => false end
@@ -491,7 +488,7 @@ Section Fold.
     (forall imp' cs' r', Pimp imp' -> Forall (clean imp') cs' -> Forall fresh cs' -> sub_compute cs' = Ok r' ->
         map asg_of r' = flat_map (fun x => sem_comp re_match g args sub imp' (active x)) cs' /\ Forall Q r') ->
     (forall a, Pimp (imports_of vs ss imp a (fo_imported h) imp)) ->
-    no_min_limit vs h sub ->
+    no_min_limit vs ss h sub ->
     Forall (key_fresh imp) (fo_imported h) ->
     Forall (clean imp) cs ->
     fold_step re_match g args vs ss h sub sub_compute cs = Ok r ->
@@ -508,9 +505,7 @@ Section Fold.
     inv_bind H. rename x into maxl. rename Hx0 into Hmax.
     inv_bind H. rename x into minl0.
     assert (Hminl : match minl0 with
-                    | Some m => if (match c_outputs sub with [] => true | _ => false end)
-                                   && (match fo_fsout h with [] => true | _ => false end)
-                                   && negb (has_tag_on_fold_count vs h) then Some m else None
+                    | Some m => if min_eligible vs ss h sub then Some m else None
                     | None => None end = None).
     { destruct minl0 as [m|]; [|reflexivity]. now rewrite (Hnomin m Hx0). }
     cbv zeta in H. rewrite Hminl in H. clear Hminl Hx0.
